@@ -1,3 +1,4 @@
+import Rawr.Proofs.RustImpAgree_Eval
 import Rawr.Props.C17
 import Rawr.Proofs.RustImpAgree
 import Rawr.Proofs.RustSearchAgree
